@@ -10,8 +10,12 @@ import subprocess
 import time
 from concurrent.futures import ThreadPoolExecutor
 
+import threading
+
 import core
 from core import WORK, ToolError, log
+
+_LOCK = threading.Lock()     # result accounting of program sets compiled in parallel
 
 FEATURES = '["rust_1_83", "alloc", "cmp", "iter", "parsing_proc"]'
 
@@ -45,10 +49,13 @@ def rust_bytes(b):
 class ProgSet:
     """A set of cases compiled into one crate: each case is one line `fn case_k() -> String { .. }`."""
 
+    SHARD = 1600             # cases per crate: rustc's front end is single-threaded per crate
+
     def __init__(self, run, name, prelude=""):
         self.run, self.name, self.prelude = run, name, prelude
         self.cases = []          # (body, exp_str, rec)
         self.opts = {}
+        self.tdir = None         # own target directory (shards)
 
     def add(self, body, exp, rec, isolate=False, accept=None):
         """exp: expected printed value.  isolate: run the case in its own process under a timeout (its expected
@@ -65,7 +72,7 @@ class ProgSet:
                     % (core.REPO, FEATURES))
         os.makedirs(os.path.join(d, ".cargo"), exist_ok=True)
         with open(os.path.join(d, ".cargo", "config.toml"), "w") as f:
-            f.write('[net]\noffline = true\n[build]\ntarget-dir = "%s"\n' % target_dir())
+            f.write('[net]\noffline = true\n[build]\ntarget-dir = "%s"\n' % (self.tdir or target_dir()))
         lock = os.path.join("/repo", "Cargo.lock")
         if os.path.exists(lock):
             shutil.copy(lock, os.path.join(d, "Cargo.lock"))
@@ -90,7 +97,26 @@ class ProgSet:
         return idx
 
     def execute(self, timeout=1800):
-        """Compile + run; returns number of cases executed. Mismatches / compile failures become violations."""
+        """Compile + run; returns number of cases executed. Mismatches / compile failures become violations.
+        Large sets are split into crates of SHARD cases compiled in parallel (each with its own target directory)."""
+        if len(self.cases) > self.SHARD and self.tdir is None:
+            shards = []
+            for k in range(0, len(self.cases), self.SHARD):
+                sh = ProgSet(self.run, "%s-s%d" % (self.name, k // self.SHARD), self.prelude)
+                sh.cases = self.cases[k:k + self.SHARD]
+                sh.opts = {i - k: self.opts[i] for i in range(k, min(k + self.SHARD, len(self.cases))) if i in self.opts}
+                sh.tdir = os.path.join(WORK, "target-prog-shard-%d" % (k // self.SHARD % 4))
+                shards.append(sh)
+            t0 = time.time()
+            # four lanes; shards of one lane share a target directory (konst is built once per lane)
+            lanes = [shards[i::4] for i in range(4)]
+
+            def lane(ls):
+                return sum(s.execute(timeout) for s in ls)
+            with ThreadPoolExecutor(4) as ex:
+                n = sum(ex.map(lane, lanes))
+            log("  programs %-22s %6d cases in %d crates, %.1fs" % (self.name, n, len(shards), time.time() - t0))
+            return n
         run = self.run
         d = os.path.join(WORK, "prog", self.name)
         shutil.rmtree(d, ignore_errors=True)
@@ -122,6 +148,7 @@ class ProgSet:
                 raise ToolError("generated program set %s does not compile and no case could be blamed:\n%s"
                                 % (self.name, core.tail(p.stdout, 60)))
             for k in sorted(bad):
+              with _LOCK:
                 body, exp, rec = self.cases[k]
                 msg = re.search(r"error(\[E\d+\])?: [^\n]*", p.stdout)
                 acc = self.opts.get(k, (False, None))[1]
@@ -135,7 +162,7 @@ class ProgSet:
             live = [k for k in live if k not in bad]
         else:
             raise ToolError("program set %s: still failing to compile after removing bad cases" % self.name)
-        exe = os.path.join(target_dir(), "debug", "kprog")
+        exe = os.path.join(self.tdir or target_dir(), "debug", "kprog")
         q = subprocess.run(["timeout", str(timeout), exe], stdout=subprocess.PIPE, stderr=subprocess.PIPE, text=True,
                            errors="replace", preexec_fn=core._limits)
         got = {}
@@ -158,6 +185,11 @@ class ProgSet:
         with ThreadPoolExecutor(8) as ex:
             for k, g in ex.map(one, iso):
                 got[k] = g
+        with _LOCK:
+            return self._account(live, got, q, t0)
+
+    def _account(self, live, got, q, t0):
+        run = self.run
         n = 0
         for k in live:
             body, exp, rec = self.cases[k]
